@@ -56,7 +56,7 @@ Ctx == ("x" :> VI(3)) @@ ("s" :> VS(<<97>>))
 \* ---- whitespace styles of the text pieces ----------------------------------------------
 \* a style maps symbol k to its text
 Letter(k) == 64 + k      \* A, B, C ...
-Styles == {"sp", "lf", "mix", "none", "onlyws", "inner"}
+Styles == {"sp", "lf", "mix", "none", "onlyws", "inner", "ctl", "ctl2"}
 \* a style is [ws |-> name, padAt |-> set of symbols that carry pad token #k in their middle]
 \* (pads are used by MC_C14; they never touch a delimiter, so trimming is unaffected)
 Mid(sty, k) == IF k \in sty.padAt THEN <<Letter(k), PadBase + k - 1, Letter(k)>> ELSE <<Letter(k)>>   \* pad token #k-1 (0-based on the Go side)
@@ -67,6 +67,9 @@ TextOfSym(sty, k) ==
       [] sty.ws = "none"   -> Mid(sty, k)
       [] sty.ws = "onlyws" -> IF k % 2 = 0 /\ k \notin sty.padAt THEN <<cSP, cLF>> ELSE <<cSP>> \o Mid(sty, k) \o <<cSP>>
       [] sty.ws = "inner"  -> Mid(sty, k) \o <<cSP, cSP, Letter(k), cLF>>
+      \* control bytes are not whitespace: a dash stops at NUL, VT, FF, ESC
+      [] sty.ws = "ctl"    -> <<cLF, 0, cSP>> \o Mid(sty, k) \o <<cSP, 12, cTAB>>
+      [] sty.ws = "ctl2"   -> <<cSP, 11>> \o Mid(sty, k) \o <<27, cLF>>
 Sty(c) == [ws |-> c.style, padAt |-> IF "padAt" \in DOMAIN c THEN c.padAt ELSE {}]
 
 \* ---- layouts over the piece sequence ------------------------------------------------------
